@@ -149,6 +149,15 @@ def _live_count(hist):
     return n
 
 
+def hist_sig(k):
+    """(input row, output row) of the k-th operation a history creates: four ports each way whose types rotate with
+    k, so that two nodes that held the same index one after the other differ on every port"""
+    from hugr import tys
+
+    pool = [tys.Bool, tys.Unit, tys.Qubit, tys.USize(), tys.Tuple(tys.Bool, tys.Unit)]
+    return ([pool[(k + i) % 5] for i in range(4)], [pool[(k + 2 * i + 1) % 5] for i in range(4)])
+
+
 class Exec:
     """Runs a history on a real Hugr and on the model in lock-step."""
 
@@ -204,7 +213,7 @@ class Exec:
         if k == "add_node":
             self.opn += 1
             name = f"op{self.serial}_{self.opn}"
-            op = ops.Custom(name, tys.FunctionType([tys.Bool] * 4, [tys.Bool] * 4), extension="hist")
+            op = ops.Custom(name, tys.FunctionType(*hist_sig(self.opn)), extension="hist")
             kw = {}
             if st[2] is not None:
                 kw["num_outs"] = st[2]
